@@ -137,6 +137,15 @@ def run(ctx):
                   "%s gates the possible values on ValueRange::%s instead of takes_values(): args with an optional value lose their value list" % (q, preds))
     if len(sigs) == 2:
         res.check(len(set(map(tuple, sigs.values()))) == 1, "R16.2", "possible_values-siblings-agree", "clap_complete", "AOT and dynamic helpers use the same gate", "AOT and dynamic possible_values helpers disagree: %s" % sigs)
+    # R16.2f possible values are looked at before (never under) a value-hint test: an option with both keeps its value list
+    npv = 0
+    for b in fx.bodies(r"^clap_complete::aot::shells::|^clap_complete_nushell::"):
+        for c in b.calls_to(r"utils::possible_values$"):
+            npv += 1
+            hint = [g for g in guard_strs(b, c.bb) if "get_value_hint" in g]
+            res.check(not hint, "R16.2", "possible-values-before-hint|" + b.q.split("::", 3)[-1].split("{")[0].rstrip(":"), c.where(), "possible values consulted independently of the value hint",
+                      "%s consults the possible values only under %s: an option with possible values and that hint loses its value list in the script" % (b.q, [g[:60] for g in hint]))
+    res.floor("R16.2", "utils::possible_values call sites in the generators", npv, 3)
     # R16.3b bash: the word of a case arm is what the user types (name / visible alias verbatim); only the function name is mangled
     for b in fx.bodies(r"^clap_complete::aot::shells::bash::all_subcommands::add_command$"):
         pu = [c for c in b.calls_to(r"Vec::push$") if expr(b, c.args[0]) == "subcmds"]
